@@ -28,3 +28,8 @@ package api
 //@   pure
 //@   note assumed: registered queue comparators are pure
 //@ end
+
+//@ func type:BindRequestMutateFn
+//@   pure
+//@   note assumed: bind-request mutators only compute annotations
+//@ end
